@@ -28,6 +28,8 @@ func init() {
 			"goroutine's treatment of malformed peer messages beyond closing the connection.",
 		Run: runC17,
 		Mutants: []Mutant{
+			{Name: "options-parsing-stops-after-the-first-capabilities-parameter", File: "internal/bgp/native/messages.go",
+				Old: "\t\tif lr.N != 0 {\n\t\t\treturn fmt.Errorf(\"%d trailing garbage bytes after capability option\", lr.N)\n\t\t}\n\t}\n}\n\nfunc readCapabilities(", New: "\t\tif lr.N != 0 {\n\t\t\treturn fmt.Errorf(\"%d trailing garbage bytes after capability option\", lr.N)\n\t\t}\n\t\treturn nil\n\t}\n}\n\nfunc readCapabilities(", Expect: "READ-TO-END"},
 			{Name: "diff-against-a-remembered-copy-of-the-advertised-set", File: "internal/bgp/native/native.go",
 				Old: "\tstats.AdvertisedPrefixes(s.peerName, len(s.advertised))\n\n\tfor {\n\t\tfor s.new == nil && s.conn != nil {\n\t\t\ts.cond.Wait()\n\t\t}\n\n\t\tif s.closed {\n\t\t\treturn false\n\t\t}\n\t\tif s.conn == nil {\n\t\t\treturn true\n\t\t}\n\t\tif s.new == nil {\n\t\t\t// nil is \"no pending updates\", contrast to a non-nil\n\t\t\t// empty map which means \"withdraw all\".\n\t\t\tcontinue\n\t\t}\n\n\t\tfor c, adv := range s.new {\n\t\t\tif adv2, ok := s.advertised[c]; ok && adv.Equal(adv2) {", New: "\tsent := s.advertised\n\tstats.AdvertisedPrefixes(s.peerName, len(s.advertised))\n\n\tfor {\n\t\tfor s.new == nil && s.conn != nil {\n\t\t\ts.cond.Wait()\n\t\t}\n\n\t\tif s.closed {\n\t\t\treturn false\n\t\t}\n\t\tif s.conn == nil {\n\t\t\treturn true\n\t\t}\n\t\tif s.new == nil {\n\t\t\t// nil is \"no pending updates\", contrast to a non-nil\n\t\t\t// empty map which means \"withdraw all\".\n\t\t\tcontinue\n\t\t}\n\n\t\tfor c, adv := range s.new {\n\t\t\tif adv2, ok := sent[c]; ok && adv.Equal(adv2) {", Expect: "STALE-ALIAS"},
 			{Name: "lock-released-around-withdraw", File: "internal/bgp/native/native.go",
@@ -76,6 +78,10 @@ func runC17(p *chk.Prog, r *chk.Report) {
 	c17Pending(p, r)
 	c17Diff(p, r)
 	c17StaleAlias(p, r)
+	// the requested timers are never overwritten by what one connection negotiated (PARAMS-READONLY, shared with C16)
+	c16ParamsReadonly(p, r)
+	// the peer's capabilities are read to the end of the OPEN (READ-TO-END, shared with C16)
+	c16ReadToEnd(p, r)
 	// what a (re)connection negotiated is what the updates of that connection are encoded with (NEGOTIATED, shared
 	// with C16): a capability remembered from an earlier connection makes the full re-send undecodable for the peer
 	c16Negotiated(p, r)
@@ -354,6 +360,34 @@ func c17Close(p *chk.Prog, r *chk.Report) {
 			tgt := c.Node.(*ast.CallExpr).Args[2].(*ast.UnaryExpr).X
 			if isAsn(tgt) {
 				continue // read straight into the result
+			}
+			// read into a field of a capabilities record that the caller merges into the result afterwards: the record's
+			// flag is set with it here, and in readOpen the flag, when set, always moves that field into the result's asn
+			if sel, isSel := ast.Unparen(tgt).(*ast.SelectorExpr); isSel && sel.Sel.Name != "asn" {
+				fld := sel.Sel.Name
+				flagHere := false
+				for _, fb := range g.Find(rc.IsAssignPat("CAPS.fbasn", "true", chk.H("CAPS", func(e ast.Expr) bool { return rc.SameExpr(e, sel.X) }))) {
+					if !g.MustPass(c, func(n ast.Node) bool { return n == fb.Top }, false, func(n ast.Node) bool { return false }).Found {
+						continue
+					}
+					flagHere = true
+				}
+				merged := false
+				if ro := p.LookupFunc(natPkg, "", "readOpen"); ro != nil && ro.Body != nil && flagHere {
+					og := ro.Graph()
+					isSet := og.GPat(true, "C.fbasn")
+					move := ro.IsAssignPat("RET.asn", "C."+fld)
+					es := og.EdgesImplying(isSet)
+					merged = len(es) >= 1
+					for _, e := range es {
+						if og.BranchAlways(e, move).Found {
+							merged = false
+						}
+					}
+				}
+				if merged {
+					continue
+				}
 			}
 			// read into a local: the local is stored into ret.asn on every path on which the read succeeded
 			same := func(e ast.Expr) bool { return rc.SameExpr(e, tgt) }
